@@ -141,7 +141,9 @@ def run(ctx):
     if f:
         T = tpl.Templates(f)
         txt = " | ".join(T.text(s) for s in T.root_streams())
-        ok = txt == "⟨proc_macro2::Ident⟩ = ⟨alt __errors . handle ( ⟨syn::path::Path⟩ ( __fwd_attrs ) ) ¦ :: darling :: export :: Some ( __fwd_attrs ) ⟩ ;"
+        # the two alternatives, in whichever order the generator lists them
+        forms = sorted({" ".join(x) for s in T.root_streams() for x in tpl.expand_alts(T.render(s))})
+        ok = forms == sorted(["⟨proc_macro2::Ident⟩ = __errors . handle ( ⟨syn::path::Path⟩ ( __fwd_attrs ) ) ;", "⟨proc_macro2::Ident⟩ = :: darling :: export :: Some ( __fwd_attrs ) ;"])
         ctx.ob("C08.H.forward-populator", f.key, "attrs = Some(__fwd_attrs) | handle(with(__fwd_attrs))", ok, txt)
     # the buffers that live across attributes (__flatten, __fwd_attrs) are only ever pushed to by the per-list / per-attribute code
     common.buffers_only_pushed(ctx, "C08.H.cross-attribute-buffers-only-pushed")
